@@ -770,6 +770,42 @@ func genC22(r *rand.Rand, n int, emit func(core.Case)) {
 
 // ---------------------------------------------------------------------------------------------- C26 generator
 
+var wktPieces = []string{"0", "1", "9", "-", "+", ".", "s", "T", "Z", ":", "z", "t", " ", "2006-01-02T15:04:05", "999999999", "315576000001", ",", "a", "_", "b.c", "fooBar",
+	"type.googleapis.com/", "google.protobuf.Duration", "pb2.Nested", "/", "e", "E", "\\u0031", "\\n"}
+
+func wktSoup(r *rand.Rand) string {
+	var sb strings.Builder
+	for n := r.IntN(6); n > 0; n-- {
+		sb.WriteString(wktPieces[r.IntN(len(wktPieces))])
+	}
+	return sb.String()
+}
+
+// wktDoc renders a document for textpb2.KnownTypes ("K") or textpb2.Nests ("G") whose values are token soups.
+func wktDoc(r *rand.Rand, fmtName, t string) string {
+	q := func() string { return `"` + wktSoup(r) + `"` }
+	if t == "G" {
+		if fmtName == "json" {
+			return []string{`{"optgroup":{"optString":` + q() + `,"optnestedgroup":{"optFixed32":` + wktSoup(r) + `}}}`,
+				`{"rptgroup":[{"rptString":[` + q() + `]},{}],"optNested":{"optNested":{"optString":` + q() + `}}}`}[r.IntN(2)]
+		}
+		return []string{`OptGroup{opt_string:` + q() + ` OptNestedGroup{opt_fixed32:` + wktSoup(r) + `}}`,
+			`RptGroup{rpt_string:` + q() + `} RptGroup<> opt_nested<opt_nested{opt_string:` + q() + `}>`, `optgroup{} OptGroup:{}`}[r.IntN(3)]
+	}
+	if fmtName == "json" {
+		return []string{`{"optDuration":` + q() + `}`, `{"optTimestamp":` + q() + `}`, `{"optFieldmask":` + q() + `}`,
+			`{"optAny":{"@type":` + q() + `,"value":` + q() + `}}`, `{"optAny":{"value":` + q() + `,"@type":"type.googleapis.com/google.protobuf.Duration"}}`,
+			`{"optAny":{"@type":"type.googleapis.com/pb2.Nested","optString":` + q() + `,"@type":"x"}}`,
+			`{"optAny":{"@type":"type.googleapis.com/google.protobuf.Any","value":{"@type":"type.googleapis.com/google.protobuf.Empty","value":{}}}}`,
+			`{"optStruct":{` + q() + `:` + wktSoup(r) + `}}`, `{"optValue":` + wktSoup(r) + `,"optList":[` + q() + `,null]}`, `{"optNull":` + q() + `,"optEmpty":{}}`,
+			`{"optInt64":` + q() + `,"optDouble":` + q() + `,"optBytes":` + q() + `}`}[r.IntN(11)]
+	}
+	return []string{`opt_duration{seconds:` + wktSoup(r) + ` nanos:` + wktSoup(r) + `}`, `opt_timestamp<seconds:1 nanos:` + wktSoup(r) + `>`,
+		`opt_any{[type.googleapis.com/pb2.Nested]{opt_string:` + q() + `}}`, `opt_any{[` + wktSoup(r) + `]{}}`, `opt_any{type_url:` + q() + ` value:` + q() + `}`,
+		`opt_fieldmask{paths:` + q() + ` paths:[` + q() + `]}`, `opt_struct{fields{key:` + q() + ` value{number_value:` + wktSoup(r) + `}}}`,
+		`opt_value{list_value{values{null_value:` + wktSoup(r) + `}}}`, `opt_int64{value:` + wktSoup(r) + `}`}[r.IntN(9)]
+}
+
 type fdesc struct{ jn, tn, vk, sub string }
 
 var tableT = []fdesc{{"optionalInt32", "optional_int32", "int", ""}, {"optionalString", "optional_string", "str", ""},
@@ -908,9 +944,15 @@ func genC26(r *rand.Rand, n int, emit func(core.Case)) {
 			}
 			emit(core.Case{"op": "ints", "steps": steps})
 		default: // totality: arbitrary and mutated documents into both decoders
-			t := []string{"T", "T3", "X", "B", "V", "S", "A", "R"}[r.IntN(8)]
+			t := []string{"T", "T3", "X", "B", "V", "S", "A", "R", "K", "K", "G"}[r.IntN(11)]
 			var b []byte
-			switch r.IntN(4) {
+			k := r.IntN(4)
+			if t == "K" || t == "G" {
+				k = 4
+			}
+			switch k {
+			case 4: // well-known types and groups: field templates with soup values
+				b = []byte(wktDoc(r, fmtName, t))
 			case 0:
 				var sb strings.Builder
 				randJSON(r, 3, &sb)
